@@ -66,6 +66,14 @@ EqChar    == "eq" \in Ops /\ \E i \in DOMAIN pool : \E x \in Symbols : CanDo /\
 \* str_equal(array, s): which rows spell s (s taken from the rows of the array itself, so that matches occur)
 EqStr     == "streq" \in Ops /\ \E i \in DOMAIN pool : \E s \in {pool[i][j] : j \in DOMAIN pool[i]} : CanDo /\ s # <<>> /\
                Same([op |-> "streq", t |-> i, s |-> s], [kind |-> "flags", val |-> [j \in DOMAIN pool[i] |-> pool[i][j] = s]])
+\* bnp.ragged_slice(array, starts, ends): row j from its own position starts[j] up to ends[j] (util/ragged_slice.py)
+Min2c(x, y) == IF x < y THEN x ELSE y
+RStart(kind, j, r) == IF kind = "alt" THEN Min2c(Len(r), (j + 1) % 2) ELSE Min2c(Len(r), 1)        \* 0-based, first row from 0 ("alt") or every row from 1
+REnd(kind, j, r) == IF kind = "alt" THEN Min2c(Len(r), RStart(kind, j, r) + 1) ELSE Len(r)
+RSlice    == "rslice" \in Ops /\ \E i \in DOMAIN pool : \E kind \in {"alt", "from1"} : CanDo /\ Len(pool[i]) > 0 /\
+               Same([op |-> "rslice", t |-> i, sel |-> kind,
+                     starts |-> [j \in DOMAIN pool[i] |-> RStart(kind, j, pool[i][j])], ends |-> [j \in DOMAIN pool[i] |-> REnd(kind, j, pool[i][j])]],
+                    [kind |-> "rows", val |-> [j \in DOMAIN pool[i] |-> SubSeq(pool[i][j], RStart(kind, j, pool[i][j]) + 1, REnd(kind, j, pool[i][j]))]])
 \* str_equal(array, other array with as many rows): which rows spell the same string
 EqArr     == "streq2" \in Ops /\ \E i, k \in DOMAIN pool : CanDo /\ Len(pool[i]) = Len(pool[k]) /\ Len(pool[i]) > 0 /\
                Same([op |-> "streq2", t |-> i, u |-> k], [kind |-> "flags", val |-> [j \in DOMAIN pool[i] |-> pool[i][j] = pool[k][j]]])
@@ -81,7 +89,7 @@ AssignMask == "setmask" \in Ops /\ \E i \in DOMAIN pool : \E x, y \in Symbols : 
                pool' = [pool EXCEPT ![i] = [j \in DOMAIN @ |-> [q \in DOMAIN @[j] |-> IF @[j][q] = x THEN y ELSE @[j][q]]]]
                /\ prog' = Append(prog, [op |-> "setmask", t |-> i, x |-> x, y |-> y, form |-> fm]) /\ obs' = [kind |-> "array"]
 
-Next == RowSelect \/ ColSelect \/ Concat \/ Copy \/ RowInt \/ ColInt \/ EqChar \/ EqStr \/ EqArr \/ Decode_ \/ Ravel \/ AssignRow \/ AssignMask
+Next == RowSelect \/ ColSelect \/ Concat \/ Copy \/ RowInt \/ ColInt \/ EqChar \/ EqStr \/ EqArr \/ RSlice \/ Decode_ \/ Ravel \/ AssignRow \/ AssignMask
 Spec == Init /\ [][Next]_vars
 
 \* design invariants: shapes are preserved where NumPy preserves them
